@@ -24,6 +24,10 @@ pub struct Sink22 {
     pub between: Vec<(String, String)>,
     /// sites of the nearest upstream observation points
     pub preds: Vec<u16>,
+    /// a real sink (`for_each`). Only differences at sinks are violations: whether an `inspect` in the middle of
+    /// a pull pipeline is evaluated at all legitimately depends on the shape (e.g. `cross_singleton` documents
+    /// that it short-circuits its input side); taps and user-level inspects serve the attribution only.
+    pub is_sink: bool,
 }
 
 /// per-item operators (and plumbing) that get no tap of their own
@@ -484,7 +488,8 @@ fn gen_base(rng: &mut Rng, usage: &mut BTreeMap<String, u64>) -> (Prog, Vec<Sink
             let raw = between.remove(pos);
             between.insert(0, raw);
         }
-        sinks.push(Sink22 { site, name: prog.nodes[x].name.clone(), ordered, between, preds });
+        let is_sink = prog.nodes[x].kind == "for_each";
+        sinks.push(Sink22 { site, name: prog.nodes[x].name.clone(), ordered, between, preds, is_sink });
     }
     sinks.sort_by_key(|s| s.site);
     (prog, sinks, kinds)
